@@ -3,7 +3,7 @@
    One lemma per construct, each taking the simulation of the immediate sub-expressions as hypotheses. *)
 From Coq Require Import ZArith NArith List Bool Lia.
 From NV Require Import Base.Bytes Isa.Codec Isa.CodecProofs gen.IsaTable Lang.Ast Lang.Ref Back.VmCompile Back.VmExec Back.OpTable
-  Back.VmSimFetch Back.VmSimStep Back.VmSimComp Back.VmSimWf Back.VmSimEnv Back.VmSimDefs.
+  Back.VmSimFetch Back.VmSimStep Back.VmSimComp Back.VmSimWf Back.VmSimEnv Back.VmSimDefs Back.IntFormat Back.IntFormatProofs.
 Import ListNotations.
 
 (* ---------- operators ---------- *)
@@ -93,6 +93,59 @@ Lemma nth_map_MInt l : forall n, n < length l -> nth n (map MInt l) MVoid = MInt
 Proof.
   induction l as [|z l IH]; intros n H; cbn [length] in H; [lia|]. destruct n; [reflexivity|]. cbn [map nth]. apply IH. lia.
 Qed.
+
+(* ---------- strings ---------- *)
+Lemma until_nul_length s : length (until_nul s) <= length s.
+Proof. induction s as [|c r IH]; cbn [until_nul length]; [lia|]. destruct (N.eqb c 0); cbn [length]; lia. Qed.
+Lemma unescape_raw_length : forall n s, length s <= n -> length (unescape_raw s) <= length s.
+Proof.
+  induction n as [|n IH]; intros s H; [destruct s; [cbn; lia|cbn in H; lia]|].
+  destruct s as [|c r]; [cbn; lia|].
+  assert (Hr : length (unescape_raw r) <= length r) by (apply IH; cbn [length] in H; lia).
+  assert (Gen : length (c :: unescape_raw r) <= length (c :: r)) by (cbn [length]; lia).
+  destruct (N.eq_dec c 92) as [->|Hc].
+  - destruct r as [|d r']; [cbn; lia|].
+    assert (Hr' : length (unescape_raw r') <= length r') by (apply IH; cbn [length] in H; lia).
+    cbn [unescape_raw].
+    destruct (match d with 110 => Some 10 | 116 => Some 9 | 114 => Some 13 | 48 => Some 0 | 92 => Some 92 | 34 => Some 34 | 39 => Some 39 | _ => None end)%N;
+      cbn [length]; lia.
+  - assert (E : unescape_raw (c :: r) = c :: unescape_raw r).
+    { destruct c as [|p]; [reflexivity|]. destruct r; [repeat (destruct p as [p|p|]; try reflexivity)|].
+      cbn [unescape_raw].
+      repeat (destruct p as [p|p|]; try reflexivity); exfalso; apply Hc; reflexivity. }
+    rewrite E. exact Gen.
+Qed.
+Lemma unescape_length s : length (unescape s) <= length s.
+Proof. unfold unescape. pose proof (until_nul_length (unescape_raw s)). pose proof (unescape_raw_length _ s (le_n _)). lia. Qed.
+
+Lemma str_ok_lit s : (N.of_nat (length s) <= 1048576)%N -> val_ok (VStr (unescape s)).
+Proof. intros H. cbn [val_ok]. unfold str_max. pose proof (unescape_length s). lia. Qed.
+
+(* inside the common domain the VM's str_substring (operands narrowed to 32 bits, then clamped) is the reference's *)
+Lemma vm_substr_spec x a b r : substr_v x a b = Some r -> vm_substr x a b = r.
+Proof.
+  unfold substr_v, vm_substr, u32, str_limit.
+  destruct ((0 <=? a) && (a <? 4294967296) && (0 <=? b) && (b <? 4294967296))%Z eqn:D; [|discriminate].
+  apply andb_true_iff in D. destruct D as [D D4]. apply andb_true_iff in D. destruct D as [D D3].
+  apply andb_true_iff in D. destruct D as [D1 D2].
+  apply Z.leb_le in D1. apply Z.ltb_lt in D2. apply Z.leb_le in D3. apply Z.ltb_lt in D4.
+  intros E. injection E as <-. rewrite !Z.mod_small by lia.
+  set (n := Z.of_nat (length x)).
+  destruct (Z.leb_spec n a) as [Hge|Hlt].
+  - rewrite (Z.min_r a n) by lia. unfold n. rewrite Nat2Z.id, skipn_all. destruct (Z.to_nat (Z.min b (Z.of_nat (length x)))); reflexivity.
+  - rewrite (Z.min_l a n) by lia.
+    assert (Hl : length (skipn (Z.to_nat a) x) = Z.to_nat (n - a)) by (rewrite skipn_length; unfold n; lia).
+    destruct (Z.le_gt_cases b (n - a)) as [Hb|Hb].
+    + rewrite (Z.min_l b (n - a)), (Z.min_l b n) by lia. reflexivity.
+    + rewrite (Z.min_r b (n - a)) by lia. rewrite <- Hl, firstn_all. symmetry. apply firstn_all2. rewrite Hl. lia.
+Qed.
+Lemma substr_v_length x a b r : substr_v x a b = Some r -> length r <= length x.
+Proof.
+  unfold substr_v. destruct ((0 <=? a) && (a <? str_limit) && (0 <=? b) && (b <? str_limit))%Z; [|discriminate].
+  intros E. injection E as <-. rewrite firstn_length, skipn_length. lia.
+Qed.
+Lemma vm_char_at_spec x i c : char_at_v x i = Some c -> vm_char_at x i = c.
+Proof. unfold char_at_v, vm_char_at. destruct ((0 <=? i) && (i <? Z.of_nat (length x)))%Z; [|discriminate]. congruence. Qed.
 
 Section Expr.
 Variable fns : list fn.
@@ -189,7 +242,7 @@ Proof.
   cbn [eval_expr rpost]. cbn [compile_expr] in Hcomp. destruct (pool_add (unescape s) p) as [i q] eqn:E.
   apply some2_inj in Hcomp. destruct Hcomp as [<- <-].
   destruct (pool_add_spec _ _ _ _ E) as [_ Hn]. pose proof (pool_le_nth _ _ _ _ Hpool Hn) as Hn'.
-  vstep Hfe Hcode Hc step_push_str. rewrite Hn'. apply Reach_here. split; [|exact I]. same_state.
+  vstep Hfe Hcode Hc step_push_str. rewrite Hn'. apply Reach_here. split; [|apply str_ok_lit; exact Hok]. same_state.
 Qed.
 
 Lemma sim_EVar fuel x : expr_sim (S fuel) (EVar x).
@@ -422,6 +475,126 @@ Proof.
   apply Reach_here. split; [same_state|]. cbn [val_ok] in Hva |- *. apply Hva.
 Qed.
 
+(* ---------- string builtins ---------- *)
+Lemma eval_str1_fault o v f : eval_str1 o v <> OF f.
+Proof. destruct o, v; discriminate. Qed.
+Lemma eval_str2_fault o a b f : eval_str2 o a b = OF f -> f = FStrDomain.
+Proof.
+  destruct o, a, b; cbn [eval_str2]; try discriminate;
+    try (destruct (concat_v s s0); [discriminate|intros E; inversion E; reflexivity]).
+  destruct (char_at_v s z); [discriminate|intros E; inversion E; reflexivity].
+Qed.
+Lemma eval_substr_fault a b c f : eval_substr a b c = OF f -> f = FStrDomain.
+Proof.
+  destruct a, b, c; cbn [eval_substr]; try discriminate.
+  destruct (substr_v s z z0); [discriminate|intros E; inversion E; reflexivity].
+Qed.
+
+Lemma concat_v_ok x y r : concat_v x y = Some r -> r = x ++ y /\ val_ok (VStr r).
+Proof.
+  unfold concat_v. destruct (Z.leb_spec (Z.of_nat (length x + length y)) str_max); [|discriminate].
+  intros E. injection E as <-. split; [reflexivity|]. cbn [val_ok]. rewrite app_length. exact H.
+Qed.
+
+Lemma str2_val_ok o va vb v : eval_str2 o va vb = OV v -> val_ok va -> val_ok vb -> val_ok v.
+Proof.
+  intros H Ha Hb. destruct o, va, vb; cbn [eval_str2] in H; try discriminate H;
+    try (destruct (concat_v s s0) eqn:E; [|discriminate]; inversion H; subst; apply (concat_v_ok _ _ _ E));
+    try (inversion H; subst; exact I).
+  destruct (char_at_v s z) eqn:E; [|discriminate]. inversion H; subst. cbn [val_ok].
+  unfold char_at_v in E. destruct ((0 <=? z) && (z <? Z.of_nat (length s)))%Z; [|discriminate]. injection E as <-.
+  apply in64_spec. pose proof (N.mod_lt (nth (Z.to_nat z) s 0%N) 256 ltac:(discriminate)) as Hm.
+  set (k := (nth (Z.to_nat z) s 0 mod 256)%N) in *. clearbody k. lia.
+Qed.
+
+Lemma step_str2_ok fn ret locs cs ip g out o va vb v st :
+  at_instr M fn ip (mk (sop2_code o) []) -> eval_str2 o va vb = OV v ->
+  step M (mkst fn ret locs (mval_of vb :: mval_of va :: st) cs ip g out) =
+  MNext (mkst fn ret locs (mval_of v :: st) cs (ip + 1) g out).
+Proof.
+  intros Hat He.
+  destruct o, va, vb; cbn [eval_str2] in He; try discriminate He; cbn [mval_of sop2_code] in *.
+  - destruct (concat_v s s0) eqn:E; [|discriminate]. inversion He; subst. destruct (concat_v_ok _ _ _ E) as [-> _].
+    apply step_add_str; assumption.
+  - destruct (concat_v s s0) eqn:E; [|discriminate]. inversion He; subst. destruct (concat_v_ok _ _ _ E) as [-> _].
+    apply step_str_concat; assumption.
+  - inversion He; subst. rewrite step_str_eq by assumption. cbn [mval_of]. rewrite str_eq_same. reflexivity.
+  - inversion He; subst. apply step_str_contains; assumption.
+  - destruct (char_at_v s z) eqn:E; [|discriminate]. inversion He; subst. rewrite step_str_char_at by assumption.
+    rewrite (vm_char_at_spec _ _ _ E). reflexivity.
+Qed.
+
+Lemma sim_EStr1 fuel o a : expr_sim fuel a -> expr_sim (S fuel) (EStr1 o a).
+Proof.
+  intros IHa genv en out ce p c p' fn fe cf pos ret locs st cs g (Hfe & Hcode & Hsz) Hcomp Hc Hok Hme Hmg Hpool Hfuel.
+  apply fuel_small_S in Hfuel. cbn [eval_expr]. cbn [compile_expr] in Hcomp. cbn [expr_ok] in Hok.
+  destruct (compile_expr G ce a p) as [[ca p1]|] eqn:Ea; [|discriminate].
+  apply some2_inj in Hcomp. destruct Hcomp as [<- <-].
+  pose proof (code_at_app_l _ _ _ _ Hc) as Hca. apply code_at_app_r in Hc. autorewrite with csz.
+  eapply rpost_bind.
+  { eapply (IHa genv en out ce p ca p1 fn fe cf pos ret locs st cs g); try eassumption. inf. }
+  intros v o1 m _ [-> Hv]; cbv iota beta.
+  destruct o, v as [z|b| |s|l]; cbn [eval_str1 of_opres rpost sop1_code] in *; rt.
+  - (* str_length *)
+    vstep Hfe Hcode Hc step_str_len. apply Reach_here. split; [same_state|].
+    cbn [val_ok] in Hv |- *. unfold str_max in Hv. apply in64_spec. lia.
+  - (* int_to_string: CAST_STRING of an int64 *)
+    vstep Hfe Hcode Hc step_cast_string_int; [apply vm_int_to_string_exact; exact Hv|].
+    apply Reach_here. split; [same_state|]. cbn [val_ok] in Hv |- *. pose proof (print_Z_length z Hv). unfold str_max. lia.
+Qed.
+
+Lemma sim_EStr2 fuel o a b : expr_sim fuel a -> expr_sim fuel b -> expr_sim (S fuel) (EStr2 o a b).
+Proof.
+  intros IHa IHb genv en out ce p c p' fn fe cf pos ret locs st cs g (Hfe & Hcode & Hsz) Hcomp Hc Hok Hme Hmg Hpool Hfuel.
+  apply fuel_small_S in Hfuel. cbn [eval_expr]. cbn [compile_expr] in Hcomp. destruct Hok as [Hoka Hokb].
+  destruct (compile_expr G ce a p) as [[ca p1]|] eqn:Ea; [|discriminate].
+  destruct (compile_expr G ce b p1) as [[cb p2]|] eqn:Eb; [|discriminate].
+  apply some2_inj in Hcomp. destruct Hcomp as [<- <-].
+  pose proof (compile_expr_pool _ _ _ _ _ _ Eb) as P2.
+  pose proof (code_at_app_l _ _ _ _ Hc) as Hca. apply code_at_app_r in Hc.
+  pose proof (code_at_app_l _ _ _ _ Hc) as Hcb. apply code_at_app_r in Hc. autorewrite with csz.
+  eapply rpost_bind.
+  { eapply (IHa genv en out ce p ca p1 fn fe cf pos ret locs st cs g); try eassumption; [inf|]. eapply pool_le_trans; eassumption. }
+  intros va o1 m _ [-> Hva]; cbv iota beta.
+  eapply rpost_bind.
+  { eapply (IHb genv en o1 ce p1 cb p2 fn fe cf (pos + csize ca) ret locs (mval_of va :: st) cs g); try eassumption. inf. }
+  intros vb o2 m _ [-> Hvb]; cbv iota beta.
+  destruct (eval_str2 o va vb) as [v|f|] eqn:Eo; cbn [of_opres rpost]; rt.
+  - vstep Hfe Hcode Hc step_str2_ok; [exact Eo|].
+    apply Reach_here. split; [same_state|eapply str2_val_ok; eassumption].
+  - rewrite (eval_str2_fault _ _ _ _ Eo). rt.
+Qed.
+
+Lemma sim_ESubstr fuel a b c0 : expr_sim fuel a -> expr_sim fuel b -> expr_sim fuel c0 -> expr_sim (S fuel) (ESubstr a b c0).
+Proof.
+  intros IHa IHb IHc genv en out ce p c p' fn fe cf pos ret locs st cs g (Hfe & Hcode & Hsz) Hcomp Hc Hok Hme Hmg Hpool Hfuel.
+  apply fuel_small_S in Hfuel. cbn [eval_expr]. cbn [compile_expr] in Hcomp. destruct Hok as (Hoka & Hokb & Hokc).
+  destruct (compile_expr G ce a p) as [[ca p1]|] eqn:Ea; [|discriminate].
+  destruct (compile_expr G ce b p1) as [[cb p2]|] eqn:Eb; [|discriminate].
+  destruct (compile_expr G ce c0 p2) as [[cc p3]|] eqn:Ec; [|discriminate].
+  apply some2_inj in Hcomp. destruct Hcomp as [<- <-].
+  pose proof (compile_expr_pool _ _ _ _ _ _ Eb) as P2. pose proof (compile_expr_pool _ _ _ _ _ _ Ec) as P3.
+  pose proof (code_at_app_l _ _ _ _ Hc) as Hca. apply code_at_app_r in Hc.
+  pose proof (code_at_app_l _ _ _ _ Hc) as Hcb. apply code_at_app_r in Hc.
+  pose proof (code_at_app_l _ _ _ _ Hc) as Hcc. apply code_at_app_r in Hc. autorewrite with csz.
+  eapply rpost_bind.
+  { eapply (IHa genv en out ce p ca p1 fn fe cf pos ret locs st cs g); try eassumption; [inf|].
+    eapply pool_le_trans; [eassumption|]. eapply pool_le_trans; eassumption. }
+  intros va o1 m _ [-> Hva]; cbv iota beta.
+  eapply rpost_bind.
+  { eapply (IHb genv en o1 ce p1 cb p2 fn fe cf (pos + csize ca) ret locs (mval_of va :: st) cs g); try eassumption; [inf|].
+    eapply pool_le_trans; eassumption. }
+  intros vb o2 m _ [-> Hvb]; cbv iota beta.
+  eapply rpost_bind.
+  { eapply (IHc genv en o2 ce p2 cc p3 fn fe cf (pos + csize ca + csize cb) ret locs (mval_of vb :: mval_of va :: st) cs g); try eassumption. inf. }
+  intros vc o3 m _ [-> Hvc]; cbv iota beta.
+  destruct va as [z|bb| |s|l]; rt. destruct vb as [sa|bb| |s'|l]; rt. destruct vc as [sb|bb| |s'|l]; rt.
+  cbn [eval_substr]. destruct (substr_v s sa sb) as [r|] eqn:Es; cbn [of_opres rpost]; rt.
+  cbn [mval_of]. vstep Hfe Hcode Hc step_str_substr. rewrite (vm_substr_spec _ _ _ _ Es).
+  apply Reach_here. split; [same_state|].
+  cbn [val_ok] in Hva |- *. pose proof (substr_v_length _ _ _ _ Es). lia.
+Qed.
+
 (* ---------- stage B: all expressions without calls ---------- *)
 Fixpoint no_call (e : expr) : Prop :=
   match e with
@@ -433,12 +606,15 @@ Fixpoint no_call (e : expr) : Prop :=
   | EArr es => (fix go (l : list expr) : Prop := match l with [] => True | a :: r => no_call a /\ go r end) es
   | EAt a i => no_call a /\ no_call i
   | ELen a => no_call a
+  | EStr1 _ a => no_call a
+  | EStr2 _ a b => no_call a /\ no_call b
+  | ESubstr a b c => no_call a /\ no_call b /\ no_call c
   end.
 
 Theorem sim_expr_no_call : forall fuel e, no_call e -> expr_sim fuel e.
 Proof.
   induction fuel as [|fuel IH]; intros e Hn; [apply expr_sim_0|].
-  destruct e as [z|b|s|x|o a|o a b|f args|c a b|es|a i|a]; cbn [no_call] in Hn.
+  destruct e as [z|b|s|x|o a|o a b|f args|c a b|es|a i|a|so a|so a b|a b c]; cbn [no_call] in Hn.
   - apply sim_ENum.
   - apply sim_EBool.
   - apply sim_EStr.
@@ -452,6 +628,9 @@ Proof.
   - apply sim_EArr. induction es as [|a r IHr]; [constructor|]. destruct Hn as [Ha Hr]. constructor; [apply IH; exact Ha|apply IHr; exact Hr].
   - destruct Hn as [Ha Hi]. apply sim_EAt; apply IH; assumption.
   - apply sim_ELen. apply IH; assumption.
+  - apply sim_EStr1. apply IH; assumption.
+  - destruct Hn as [Ha Hb]. apply sim_EStr2; apply IH; assumption.
+  - destruct Hn as (Ha & Hb & Hc). apply sim_ESubstr; apply IH; assumption.
 Qed.
 
 End Expr.
